@@ -54,6 +54,20 @@ CHECKS = {
         note="Trusted: the 10-line reference model of option parsing; PYTHONIOENCODING=utf-8 for printed output.",
         ref="DESIGN.md 3 C16",
     ),
+    "C07": dict(
+        category="model_checking",
+        technique="stateless schedule exploration (all environment answers: truthiness of every condition operand, in-place capability of every loaded operand) of statement templates in which every subexpression is a logging probe, differential against CPython",
+        text="About 200 statement templates (every assignment target shape incl. chained/nested/starred, 13 augmented operators x 4 target kinds, calls, def defaults/decorators 0..2 each, class bases/metaclass/keywords/decorators, if/while/for headers, return, comparison chains, boolean operators, comprehensions, f-strings) x 3 placements have every subexpression replaced by a logging probe whose results log the data-model operations applied to them; every schedule of environment answers is explored on the source and replayed on each of the 8 conversions; the ordered logs must be identical.",
+        note="Trusted: CPython for evaluation order; annotations are not probed; class probes return real classes (no __mro_entries__); creation-hook timing is not logged.",
+        ref="DESIGN.md 3 C07, 5b E2",
+    ),
+    "C13": dict(
+        category="exploration",
+        technique="bounded-exhaustive enumeration of three products (unpack patterns x source lengths x source kinds; slice bounds x values; 13 operators x target kinds x operand types x placements), differential execution against CPython",
+        text="All target patterns to depth 2 (thorough: 3) with the star at every position, tuple/list brackets and name/attribute/subscript/slice leaves, from sources of every length the star allows and 10 source kinds (incl. one-shot iterators, nested generators, dict views); all slice-bound combinations; the full operator table over 14 operand types (incl. user classes with, without and with odd in-place methods) in 4 placements with an alias and the store count observed.",
+        note="Trusted: CPython; programs on which it raises are outside the fragment. quick runs 2 of 8 option combinations for the two big products, thorough all 8.",
+        ref="DESIGN.md 3 C13",
+    ),
 }
 
 def main():
